@@ -426,6 +426,7 @@ pub fn run(tier: Tier, totals: &mut Totals) {
     scale(tier, totals);
     prefix_family(totals);
     padded_names(totals);
+    look_alike_names(totals);
 }
 
 /// Names that are prefixes of one another: every subset of nine look-alike names defined, then one
@@ -492,6 +493,82 @@ fn prefix_family(totals: &mut Totals) {
                 }
             } else if mask.count_ones() > 1 {
                 totals.nontrivial += 1;
+            }
+        }
+    }
+}
+
+/// Names that differ only in letter case, in Unicode normalisation form, by a ligature or a look-alike
+/// character are different names: all defined at once, each keeps its own value, the list of names has
+/// every one of them, and removing one leaves the others.
+fn look_alike_names(totals: &mut Totals) {
+    let groups: [&[&str]; 7] = [
+        &["item", "Item", "ITEM", "iTem"],
+        &["\u{130}", "i\u{307}", "i", "I", "\u{131}"],
+        &["\u{e9}", "e\u{301}", "E\u{301}", "\u{c9}"],
+        &["stra\u{df}e", "strasse", "STRASSE", "stra\u{1e9e}e"],
+        &["\u{fb01}n", "fin", "FIN"],
+        &["K", "\u{212a}", "k"],
+        &["a::b", "A::b", "a::B", "a:\u{a789}b"],
+    ];
+    for names in groups {
+        totals.evals += 1;
+        totals.transitions += 1;
+        totals.traces += 1;
+        totals.nontrivial += 1;
+        let mut s = Session::new();
+        let mut problems: Vec<String> = vec![];
+        for (i, n) in names.iter().enumerate() {
+            if s.call("set_by_name", &[n, &format!("v{}", i)]) != Out::Val(Some(format!("v{}", i))) {
+                problems.push(format!("set_by_name {:?} did not answer its value", n));
+            }
+        }
+        for (i, n) in names.iter().enumerate() {
+            if s.call("get_by_name", &[n]) != Out::Val(Some(format!("v{}", i))) {
+                problems.push(format!("get_by_name {:?} is not v{}", n, i));
+            }
+            if s.call("is_defined", &[n]) != Out::Val(Some("true".to_string())) {
+                problems.push(format!("is_defined {:?} is not true", n));
+            }
+        }
+        let listed: Vec<String> = match s.call("get_all_var_names", &[]) {
+            Out::Val(Some(h)) => match s.handle(&h) {
+                Some(SV::L(items)) => {
+                    let mut v: Vec<String> = items.iter().filter_map(|x| if let SV::S(t) = x { Some(t.clone()) } else { None }).collect();
+                    v.sort();
+                    v
+                }
+                other => {
+                    problems.push(format!("get_all_var_names gave {:?}", other));
+                    vec![]
+                }
+            },
+            other => {
+                problems.push(format!("get_all_var_names gave {:?}", other));
+                vec![]
+            }
+        };
+        let mut expect: Vec<String> = names.iter().map(|x| x.to_string()).collect();
+        expect.sort();
+        if listed != expect {
+            problems.push(format!("get_all_var_names lists {:?}, defined are {:?}", listed, expect));
+        }
+        // removing the first leaves the others
+        s.call("unset", &[names[0]]);
+        for (i, n) in names.iter().enumerate().skip(1) {
+            if s.call("get_by_name", &[n]) != Out::Val(Some(format!("v{}", i))) {
+                problems.push(format!("after unset {:?}: get_by_name {:?} is not v{}", names[0], n, i));
+            }
+        }
+        if s.call("is_defined", &[names[0]]) != Out::Val(Some("false".to_string())) {
+            problems.push(format!("after unset {:?} it is still defined", names[0]));
+        }
+        if !problems.is_empty() {
+            let sig = "look-alike-names".to_string();
+            let e = totals.failures.entry(sig.clone()).or_insert((0, vec![]));
+            e.0 += 1;
+            if e.1.len() < 2 {
+                e.1.push(json!({"idx": 0, "sig": sig, "what": format!("names {:?}: {}", names, problems.join("; ")), "replay": {"kind": "look-alike-names", "names": names}}));
             }
         }
     }
@@ -597,6 +674,18 @@ pub fn replay(case: &Value) -> Result<String, String> {
         let r = s.call(cmd, &args.iter().map(|x| x.as_str()).collect::<Vec<_>>());
         return Ok(format!("result {:?}\nvariables afterwards {:?}", r, sorted_vars(&s.variables)));
     }
+    if case["kind"].as_str() == Some("look-alike-names") {
+        let names: Vec<String> = case["names"].as_array().map(|a| a.iter().map(|x| x.as_str().unwrap_or("").to_string()).collect()).unwrap_or_default();
+        let mut s = Session::new();
+        for (i, n) in names.iter().enumerate() {
+            s.call("set_by_name", &[n, &format!("v{}", i)]);
+        }
+        let listed = match s.call("get_all_var_names", &[]) {
+            Out::Val(Some(h)) => format!("{:?}", s.handle(&h)),
+            o => format!("{:?}", o),
+        };
+        return Ok(format!("variables {:?}\nget_all_var_names: {}", sorted_vars(&s.variables), listed));
+    }
     if case["kind"].as_str() == Some("padded-name") {
         let name = case["name"].as_str().unwrap_or("");
         let op = case["op"].as_str().unwrap_or("");
@@ -654,7 +743,7 @@ pub fn replay(case: &Value) -> Result<String, String> {
     Err("history uses operations outside the alphabet".into())
 }
 
-pub const RULE: &str = "explicit-state breadth-first search from the empty context: every operation of the alphabet (set via a one-line script; set_by_name with/without value, get_by_name, is_defined, unset with 1-2 names, get_all_var_names, unset_all_vars plain and --prefix, clear_scope, scope_push_stack / scope_pop_stack without --copy and with every --copy list of 0..2 names) is applied to every reachable state; pushes are disabled at the stack-depth bound so the space is finite and searched to a fixpoint. Each transition runs the real command, compares its output, the complete variable map, the saved maps inside the scope stack and the handle table with the model (map + stack of maps). States are de-duplicated on the implementation's own state (variables and the whole state map). evaluations = transitions; distinct_nontrivial = distinct states. Prefix family: every subset of nine look-alike names {p::a, p::b::c, p2::a, pp::a, p, px, q::p::a, p:a, P::a} x clear_scope p / p2 / q / p::b and unset_all_vars --prefix p / p:: / p2 / q::p: exactly the names the operation speaks of are removed. Scale cases (scripts, results computed in Rust): a scope stack 10/70/300 (thorough 1000, 3000) levels deep pushed and popped with --copy, a pop on the emptied stack; 10..300 variables written and read by name and removed by prefix Prefix family: 12 look-alike names (incl. p::::a, p::, ' p::a') x 18 operations (clear_scope and unset_all_vars --prefix with names ending in the separator, with blanks, in another case): exactly the names starting with NAME:: (the prefix) are removed. Padded names: 9 names with white space around them through set_by_name / get_by_name / is_defined / unset: another name than without";
+pub const RULE: &str = "explicit-state breadth-first search from the empty context: every operation of the alphabet (set via a one-line script; set_by_name with/without value, get_by_name, is_defined, unset with 1-2 names, get_all_var_names, unset_all_vars plain and --prefix, clear_scope, scope_push_stack / scope_pop_stack without --copy and with every --copy list of 0..2 names) is applied to every reachable state; pushes are disabled at the stack-depth bound so the space is finite and searched to a fixpoint. Each transition runs the real command, compares its output, the complete variable map, the saved maps inside the scope stack and the handle table with the model (map + stack of maps). States are de-duplicated on the implementation's own state (variables and the whole state map). evaluations = transitions; distinct_nontrivial = distinct states. Prefix family: every subset of nine look-alike names {p::a, p::b::c, p2::a, pp::a, p, px, q::p::a, p:a, P::a} x clear_scope p / p2 / q / p::b and unset_all_vars --prefix p / p:: / p2 / q::p: exactly the names the operation speaks of are removed. Scale cases (scripts, results computed in Rust): a scope stack 10/70/300 (thorough 1000, 3000) levels deep pushed and popped with --copy, a pop on the emptied stack; 10..300 variables written and read by name and removed by prefix Prefix family: 12 look-alike names (incl. p::::a, p::, ' p::a') x 18 operations (clear_scope and unset_all_vars --prefix with names ending in the separator, with blanks, in another case): exactly the names starting with NAME:: (the prefix) are removed. Padded names: 9 names with white space around them through set_by_name / get_by_name / is_defined / unset: another name than without. Look-alike names: 7 groups of names that differ only in letter case, dotted / dotless i, composed / decomposed form, sharp s, a ligature, the Kelvin sign, a look-alike colon - all defined at once: each keeps its value, the list of names has all, unsetting one leaves the others";
 pub const ASSUMPTIONS: &[&str] = &["names from {a,b,p::a} (thorough also {a,ab,p::a,p}), values from {1, empty, 'x y'}", "for a name that is undefined when copied on pop the model follows the implementation between 'restored' and 'undefined'", "operations other than `name = set value` are run through run_instruction (outputs observed directly, no output variable)"];
 pub const EXHAUSTIVE: bool = true;
 pub const WALL_CAP_S: (u64, u64) = (50, 1500);
